@@ -160,7 +160,9 @@ def h_transfer(eng, ff, collisions=True, runs=1):
         ("ALA", [("N", "ATOM", True), ("CA", "ATOM", True)]),
         ("WAT", [(water_o, "HETATM", True), ("H1", "HETATM", True)]),
         *lig_res,
-        ("SO4", [(other_name, "HETATM", False), ("S", "HETATM", False)]),
+        ("SO4", [(other_name, "HETATM", False), ("S", "HETATM", False)], dict(res_seq=301, chain_id="A")),
+        # the same cofactor bound to a second chain under the same residue number (homodimer numbering)
+        ("SO4", [(other_name, "HETATM", False), ("S", "HETATM", False)], dict(res_seq=301, chain_id="B")),
     ]
     w.ligand_atoms = {lig_names[0]: _MolAtom(lig_names[0], 0.5, 1.75), lig_names[1]: _MolAtom(lig_names[1], -0.5, 1.6)}
     opts = flow.symbolic_options(eng, fixed=dict(ff=ff, pka=0, ligand=1), model=dict(clean=False, assign_only=False, debump=True, opt=True, drop_water=False, neutraln=False, neutralc=False), formatting=dict(whitespace=False, keep_chain=False, include_header=False, ffout=0, pdb_output=0, apbs_input=0))
@@ -207,6 +209,12 @@ def h_transfer(eng, ff, collisions=True, runs=1):
             want_q, want_r = (0.125, 1.5) if a.has_ff else (None, None)
             eng.check(a.ffcharge == want_q and a.radius == want_r, "ligand-parameters-stay-on-the-ligand", note=f"{a.residue.name} atom {a.name} (not part of the ligand) carries charge {a.ffcharge} / radius {a.radius} taken from the MOL2 atom of the same name")
             eng.check(n == (1 if a.has_ff else 0), "non-ligand-atom-written-at-most-once", note=f"{a.residue.name} atom {a.name} written {n} times")
+    # every atom of the complex is written or reported unassigned (also the second copy of a cofactor)
+    reported = {id(a) for a in (captured["result"] or {}).get("missed_residues", [])} if isinstance(captured.get("result"), dict) else None
+    if reported is not None:
+        for a in bm.atoms:
+            n = printed.count(a._desc[1])
+            eng.check(n > 0 or id(a) in reported, "written-or-reported", note=f"{a.residue.name} {getattr(a.residue, 'chain_id', '?')} {a.residue.res_seq} atom {a.name} is neither written nor in the unassigned list the run returns")
     eng.derived["collision"] = (other_name == "L1") or (lig_names[1] == "O")
 
 
